@@ -264,12 +264,19 @@ def analyse_export(tkey, tier):
     try:
         import tomlkit
 
+        over = tkey.endswith("+over")  # history: the project directory already holds an export made with another solver selection
+        tkey = tkey.split("+")[0]
         tgt = dict(proj.TARGETS[tkey])
         tdir = tgt["dir"]
         req = example_request("minimal")
         base = {"network": {"filelist": [os.path.join(req["srcdir"], f) for f in req["files"]], "fileformats": req["formats"], "elements": req["elements"], "pseudo_elements": req["pseudo_elements"],
                             "ode_modifier": {"H": {"factors": ["2.0*zeta"], "reactants": [["C", "CH"]]}}}}
-        direct = proj.render(f"c20-export-{tkey}", dict(base, targets=[tgt], ops=[{"op": "export", "name": tdir, "prefix": "exp", "solver": tgt["solver"], "method": tgt["method"]}]))
+        ops = [{"op": "export", "name": tdir, "prefix": "exp", "solver": tgt["solver"], "method": tgt["method"]}]
+        if over:
+            other = {"dense": ("cvode", "sparse"), "sparse": ("odeint", "rosenbrock4"), "odeint": ("cvode", "dense")}[tkey]
+            ops.insert(0, {"op": "export", "name": tdir, "prefix": "exp", "solver": other[0], "method": other[1]})
+            tkey += "+over"
+        direct = proj.render(f"c20-export-{tkey.replace('+', '-')}", dict(base, targets=[tgt], ops=ops))
         if not direct.ok or not direct.target_ok(tdir):
             res["unknown"].append((res["case"], f"direct rendering refused: {direct.meta.get('error')}"))
             return res
@@ -442,7 +449,7 @@ def main(pid, tier):
     names = list(CASES) + (list(THOROUGH) if tier == "thorough" else [])
     ctx = mp.get_context("fork")
     with cf.ProcessPoolExecutor(max_workers=10, mp_context=ctx) as ex:
-        results = list(ex.map(_work, [(n, tier) for n in names] + [(f"export:{t}", tier) for t in ("dense", "sparse", "odeint")] + [("two-init", tier), ("example-command", tier)]))
+        results = list(ex.map(_work, [(n, tier) for n in names] + [(f"export:{t}", tier) for t in ("dense", "sparse", "odeint", "dense+over", "sparse+over", "odeint+over")] + [("two-init", tier), ("example-command", tier)]))
     for r in results:
         chk.programs += r["programs"]
         chk.solver_s += r["solver_s"]
